@@ -72,7 +72,7 @@ func (g *groupCase) headerStalled() int {
 
 // rec collects what one attempt of a case found. A deterministic defect of the deadline arithmetic shows
 // on every attempt; an artefact of a loaded machine (the harness's own client descheduled for hundreds of
-// milliseconds) does not repeat. Findings in a known class are deterministic and not repeated.
+// milliseconds) does not repeat.
 type rec struct {
 	reports      []func(ctx *core.Ctx)
 	hard         bool   // an unexplained finding
@@ -224,7 +224,8 @@ func (s *sess) stallAt(point string, k, waitMs, requests int, v2, group bool) (a
 	case "mitm-peek":
 		anchor, err = s.connectMITM()
 	case "mitm-hello":
-		if _, err = s.connectMITM(); err != nil {
+		var t200 time.Time
+		if t200, err = s.connectMITM(); err != nil {
 			return
 		}
 		if waitMs > 0 {
@@ -234,6 +235,10 @@ func (s *sess) stallAt(point string, k, waitMs, requests int, v2, group bool) (a
 		t, werr := s.write(e.hello[:k])
 		s.ev(t, "d")
 		err = werr
+		// the wait for the first tunnel byte is under the idle deadline, armed when the 200 was written
+		if idle := e.conf.idleEff(); idle > 0 && t.Sub(t200) > time.Duration(idle-40)*time.Millisecond {
+			inconclusive = "client overslept: first tunnel byte sent too close to the idle deadline"
+		}
 		anchor = t
 	default:
 		err = fmt.Errorf("unknown stall point %q", point)
@@ -241,16 +246,7 @@ func (s *sess) stallAt(point string, k, waitMs, requests int, v2, group bool) (a
 	return
 }
 
-func (e *env) lock() func() {
-	if e.conf.hasProxy() {
-		e.serial.Lock()
-		return e.serial.Unlock
-	}
-	return func() {}
-}
-
 func (e *env) runStall(ctx *core.Ctx, sc *stallCase) {
-	defer e.lock()()
 	key := *sc
 	key.ID = ""
 	ctx.Case(canon(key), true)
@@ -292,7 +288,7 @@ func (e *env) runStall(ctx *core.Ctx, sc *stallCase) {
 			until = time.Now().Add(time.Duration(sc.Conf.maxLimit()+600) * time.Millisecond)
 		}
 		closed, at := s.awaitClose(until)
-		e.judgeClose(ctx, r, sc, s, sc.Point, limit, anchor, closed, at, until, 0, "")
+		e.judgeClose(ctx, r, sc, s, sc.Point, limit, anchor, closed, at, until, 0)
 	})
 }
 
@@ -325,7 +321,7 @@ func (c Conf) reduced(marginMs int) Conf {
 const marginMs = 60
 
 // judgeClose compares one observed close (or its absence) with the model and evaluates the clauses.
-func (e *env) judgeClose(ctx *core.Ctx, r *rec, cs any, s *sess, point string, limitMs int, anchor time.Time, closed bool, at, until time.Time, accept int64, lateClass string) {
+func (e *env) judgeClose(ctx *core.Ctx, r *rec, cs any, s *sess, point string, limitMs int, anchor time.Time, closed bool, at, until time.Time, accept int64) {
 	O, A := s.us(at), s.us(anchor)
 	elapsed := O - A
 	if !closed {
@@ -361,15 +357,6 @@ func (e *env) judgeClose(ctx *core.Ctx, r *rec, cs any, s *sess, point string, l
 	}
 	// the clauses themselves
 	switch {
-	case point == "mitm-peek":
-		if !closed {
-			r.SpecFail(clauseLate, classMitmSilent, cs, impl,
-				"silent after the 200 to an intercepted CONNECT: observed for max(limits)+600ms, the connection stays open (no deadline is armed for the first tunnel byte unless ReadTimeout is set)")
-			ok = false
-		} else if min := int64(e.conf.minLimit()) * 1000; elapsed+epsUs < min {
-			r.SpecFail(clauseEarly, "", cs, impl, "closed before any configured limit had elapsed")
-			ok = false
-		}
 	case limitMs > 0:
 		v := ctx.Model.MustAsk("C15", "holds", "close", strconv.Itoa(limitMs*1000), strconv.FormatInt(elapsed, 10), strconv.Itoa(epsUs), strconv.FormatInt(slackUs, 10))
 		switch v {
@@ -379,10 +366,13 @@ func (e *env) judgeClose(ctx *core.Ctx, r *rec, cs any, s *sess, point string, l
 			ok = false
 		case "false late":
 			d := "not closed within limit + slack"
+			if point == "mitm-peek" {
+				d = "silent after the 200 to an intercepted CONNECT: not closed within idle timeout + slack (is a deadline armed for the first tunnel byte?)"
+			}
 			if closed {
 				d = fmt.Sprintf("closed %dus after the phase began; limit %dus + slack %dus", elapsed, limitMs*1000, slackUs)
 			}
-			r.SpecFail(clauseLate, lateClass, cs, impl, d)
+			r.SpecFail(clauseLate, "", cs, impl, d)
 			ok = false
 		default:
 			core.Fatalf("unexpected model answer %q", v)
@@ -399,7 +389,6 @@ func (e *env) judgeClose(ctx *core.Ctx, r *rec, cs any, s *sess, point string, l
 // ---- slow origin ----
 
 func (e *env) runOrigin(ctx *core.Ctx, oc *originCase) {
-	defer e.lock()()
 	key := *oc
 	key.ID = ""
 	ctx.Case(canon(key), true)
@@ -442,14 +431,13 @@ func (e *env) runOrigin(ctx *core.Ctx, oc *originCase) {
 			until = time.Now().Add(time.Duration(oc.Conf.maxLimit()+600) * time.Millisecond)
 		}
 		closed, at := s.awaitClose(until)
-		e.judgeClose(ctx, r, oc, s, "idle", limit, st, closed, at, until, 0, "")
+		e.judgeClose(ctx, r, oc, s, "idle", limit, st, closed, at, until, 0)
 	})
 }
 
 // ---- slow request body ----
 
 func (e *env) runBody(ctx *core.Ctx, bc *bodyCase) {
-	defer e.lock()()
 	key := *bc
 	key.ID = ""
 	ctx.Case(canon(key), true)
@@ -507,7 +495,7 @@ func (e *env) runBody(ctx *core.Ctx, bc *bodyCase) {
 		limit := bc.Conf.idleEff()
 		until := st.Add(time.Duration(limit)*time.Millisecond + e.slack)
 		closed, at := s.awaitClose(until)
-		e.judgeClose(ctx, r, bc, s, "idle", limit, st, closed, at, until, 0, "")
+		e.judgeClose(ctx, r, bc, s, "idle", limit, st, closed, at, until, 0)
 	})
 }
 
@@ -538,7 +526,6 @@ func (e *env) groupOnce(gc *groupCase, attempt int) (*groupObs, error) {
 	base := time.Now()
 	g := &groupObs{}
 	var wg sync.WaitGroup
-	blocking := 0
 	defer func() {
 		for _, p := range g.peers {
 			p.s.close()
@@ -563,15 +550,13 @@ func (e *env) groupOnce(gc *groupCase, attempt int) (*groupObs, error) {
 		}
 		po.anchor = anchor
 		po.limit = gc.Conf.limitAt(ps.Point)
-		// the accept loop of a PROXY listener works the header-stalled peers off one by one (F8): allow for it
-		wait := time.Duration(po.limit+blocking*gc.Conf.L.ProxyHdr)*time.Millisecond + e.slack
+		// every peer is on its own clock: it is observed until its own limit + slack, however many peers
+		// stall before it
+		wait := time.Duration(po.limit)*time.Millisecond + e.slack
 		if po.limit == 0 {
 			wait = time.Duration(gc.Conf.maxLimit()+600) * time.Millisecond
 		}
 		po.until = anchor.Add(wait)
-		if gc.Conf.hasProxy() && ps.Point == "proxy-header" {
-			blocking++
-		}
 		wg.Add(1)
 		go func() {
 			defer wg.Done()
@@ -585,7 +570,6 @@ func (e *env) groupOnce(gc *groupCase, attempt int) (*groupObs, error) {
 }
 
 func (e *env) runGroup(ctx *core.Ctx, gc *groupCase) {
-	defer e.lock()()
 	key := *gc
 	key.ID = ""
 	ctx.Case(canon(key), true)
@@ -602,10 +586,6 @@ func (e *env) runGroup(ctx *core.Ctx, gc *groupCase) {
 }
 
 func (e *env) judgeGroup(ctx *core.Ctx, r *rec, gc *groupCase, attempt int) {
-	probeClass := ""
-	if gc.Conf.hasProxy() && gc.headerStalled() >= 1 {
-		probeClass = classAcceptLoop
-	}
 	bound := gc.Conf.probeBoundUs()
 	g, err := e.groupOnce(gc, attempt)
 	if err != nil {
@@ -631,25 +611,14 @@ func (e *env) judgeGroup(ctx *core.Ctx, r *rec, gc *groupCase, attempt int) {
 		core.Fatalf("model answered %d slots for %d peers", len(slots), len(wire))
 	}
 	// --- stalled peers
-	blockedBefore := 0
 	for i, p := range g.peers {
-		lateClass := ""
-		if gc.Conf.hasProxy() && blockedBefore > 0 {
-			lateClass = classAcceptLoop
-		}
-		if gc.Conf.hasProxy() && p.spec.Point == "proxy-header" {
-			blockedBefore++
-		}
 		if p.skip != "" {
 			ctx.Count("group-peer-skipped/" + p.skip)
 			continue
 		}
-		if slots[i].Accept < 0 {
-			continue
-		}
 		one := map[string]any{"kind": "group-peer", "group": gc, "peer": i}
 		pr := &rec{}
-		e.judgeClose(ctx, pr, one, p.s, p.spec.Point, p.limit, p.anchor, p.closed, p.at, p.until, slots[i].Accept, lateClass)
+		e.judgeClose(ctx, pr, one, p.s, p.spec.Point, p.limit, p.anchor, p.closed, p.at, p.until, slots[i].Start)
 		if pr.inconclusive != "" {
 			ctx.Count("group-peer-skipped/" + pr.inconclusive)
 			continue
@@ -671,14 +640,12 @@ func (e *env) judgeGroup(ctx *core.Ctx, r *rec, gc *groupCase, attempt int) {
 	slackUs := e.slack.Microseconds()
 	ok := true
 	switch {
-	case g.perr != nil && g.pslow && probeClass == "":
+	case g.perr != nil && g.pslow:
 		r.inconclusive = "probe client too slow in its prelude"
 		return
 	case g.perr != nil:
-		r.SpecFail(clauseProbe, probeClass, gc, impl, "the probe was not served")
-		if probeClass == "" {
-			r.Disagree("the probe is served (Model.C15 serve)", gc, impl, mdl)
-		}
+		r.SpecFail(clauseProbe, "", gc, impl, "the probe was not served")
+		r.Disagree("the probe is served (Model.C15 serve)", gc, impl, mdl)
 		ok = false
 	default:
 		if modelDelay < 0 || lat+epsUs < modelDelay || lat > modelDelay+slackUs {
@@ -686,7 +653,7 @@ func (e *env) judgeGroup(ctx *core.Ctx, r *rec, gc *groupCase, attempt int) {
 			ok = false
 		}
 		if lat > bound {
-			r.SpecFail(clauseProbe, probeClass, gc, impl, fmt.Sprintf("latency above the bound %dus, which does not depend on the number of stalled peers", bound))
+			r.SpecFail(clauseProbe, "", gc, impl, fmt.Sprintf("latency above the bound %dus, which does not depend on the number of stalled peers", bound))
 			ok = false
 		}
 	}
@@ -708,9 +675,9 @@ func pointsFor(stack string, group bool) []string {
 		return []string{"tls-hello", "tls-hello", "idle", "head"}
 	case "mitm":
 		if group {
-			return []string{"idle", "head", "mitm-hello"}
+			return []string{"idle", "head", "mitm-hello", "mitm-peek"}
 		}
-		return []string{"idle", "head", "mitm-hello", "mitm-hello"}
+		return []string{"idle", "head", "mitm-hello", "mitm-hello", "mitm-peek"}
 	case "proxy":
 		return []string{"proxy-header", "proxy-header", "idle", "head"}
 	case "proxy+tls":
@@ -754,8 +721,13 @@ func genStall(r *core.Rand, conf Conf, id string) *stallCase {
 			}
 		}
 	case "mitm-hello":
+		// the pause after the 200 must end well before the idle deadline of the first tunnel byte
 		if r.Chance(60) {
-			sc.WaitMs = r.Range(20, 350)
+			if room := conf.idleEff() - 130; room >= 40 {
+				sc.WaitMs = r.Range(20, room)
+			} else if conf.idleEff() == 0 {
+				sc.WaitMs = r.Range(20, 350)
+			}
 		}
 	}
 	return sc
@@ -829,19 +801,11 @@ func genJobs(ctx *core.Ctx, r *core.Rand, conf Conf, tag string) []job {
 			jobs = append(jobs, job{body: bc})
 		}
 	}
-	// groups: 1-50 simultaneously stalled peers
-	var ns []int
-	if conf.hasProxy() {
-		// every peer stalled in its PROXY header costs one header timeout of wall time (F8)
-		ns = []int{1, 2, 3, 4}
-		if !ctx.Quick() {
-			ns = []int{1, 2, 3, 5, 8, 12, 20, 50}
-		}
-	} else {
-		ns = []int{1, 3, 8, 20, 50}
-		if !ctx.Quick() {
-			ns = []int{1, 2, 3, 5, 8, 13, 20, 35, 50, 50}
-		}
+	// groups: 1-50 simultaneously stalled peers, the same sizes for every stacking (on the PROXY stackings
+	// about half of them stall in their PROXY header: the regression target of F8)
+	ns := []int{1, 3, 8, 20, 50}
+	if !ctx.Quick() {
+		ns = []int{1, 2, 3, 5, 8, 13, 20, 35, 50, 50}
 	}
 	core.Shuffle(r, ns)
 	nGroup := ctx.N(3, 8)
@@ -888,7 +852,7 @@ func reportDeltas(ctx *core.Ctx) {
 
 func Run(ctx *core.Ctx) {
 	ctx.SetRule("real proxy per (listener stacking ∈ {plain, tls, mitm, proxy, proxy+tls}, limits 150-400 ms); cases: one client stalling before any byte / after k bytes of a " +
-		"PROXY header (v1, v2), TLS ClientHello, request head (optionally after an idle wait and after 0-2 complete exchanges), after CONNECT 200 with k bytes of a ClientHello; " +
+		"PROXY header (v1, v2), TLS ClientHello, request head (optionally after an idle wait and after 0-2 complete exchanges), after CONNECT 200 silent or with k bytes of a ClientHello; " +
 		"origin sleeping longer than every limit; pause longer than every limit inside a request body; groups of 1-50 simultaneously stalled peers + a probe; " +
 		"every case is non-trivial; distinct = distinct (configuration, case parameters)")
 	ctx.Assume("wall clock sampled: close instants and probe latencies are measured on the monotonic clock of the harness process; lower side sharp (1 ms), upper side with slack")
@@ -967,10 +931,7 @@ func runPlan(ctx *core.Ctx, conf Conf, jobs []job) {
 		ctx.SpecFail(clauseServed, "", map[string]any{"kind": "warmup", "conf": conf}, err.Error(), "")
 		return
 	}
-	workers := 5
-	if conf.hasProxy() {
-		workers = 1
-	}
+	const workers = 5 // every stacking alike: no case can hold up the listener for another
 	ch := make(chan job)
 	var wg sync.WaitGroup
 	for w := 0; w < workers; w++ {
